@@ -10,6 +10,8 @@
   instantiated at `ℝ` (`Pyab/Spec/StatsReal.lean`).
 -/
 import Pyab.Spec.StatsReal
+import Pyab.Properties.PurePremise
+import Pyab.Generated.Effects
 import Pyab.Proofs.StatsReal
 import Pyab.Proofs.StatsGauss
 namespace Pyab.Properties
@@ -237,5 +239,21 @@ theorem C18_z_conservative_confidence (c q : ℝ) (hc0 : 0 < c) (hc1 : c < 1)
 open ProbabilityTheory in
 example : 1 - 1 / 40 ≤ cdf (gaussianReal 0 1) (probitR (1 / 40)) :=
   C18_z_conservative_cdf _ (by norm_num) (by norm_num)
+
+end Pyab.Properties
+
+namespace Pyab.Properties
+open Pyab
+
+/-- the write effects of the functions of `utils/stats.py` -/
+def statsEffects : List Generated.Effect := Generated.effects.filter fun e => e.fn.toList.take 6 == "stats.".toList
+
+/-- **table obligation**: `probit` and `confidence_interval` were extracted -/
+theorem stats_path_extracted : Generated.scannedFunctions.contains "stats.confidence_interval" = true ∧
+    Generated.scannedFunctions.contains "stats.probit" = true := by decide
+
+/-- **table obligation**: the statistics helpers write nothing but their own locals (no module-level memo: what they return
+    is a function of their arguments, also when several threads call them) -/
+theorem stats_path_writes_only_locals : statsEffects.all (·.kind == "local") = true := by decide
 
 end Pyab.Properties
